@@ -160,6 +160,7 @@ func runC01Fork(r *simrt.Run) {
 }
 
 func runC01(r *simrt.Run) {
+	r.WatchLocks() // a lock of the node that is never released is a violation, not a hang
 	t := r.T
 	if t.Choose(4) == 3 {
 		runC01Fork(r)
